@@ -1,34 +1,407 @@
 /-
-Executable spec oracles evaluated by the driver on the *implementation's* answers.
-Each is the Boolean twin of a Prop stated in `Properties/Cxx.lean`.
+Executable spec oracles evaluated by the driver on the *implementation's* answers (never on the
+model's). Each verdict is named `<property>.<clause>`; a name carrying `[KF:<class>]` marks an input in
+a known-finding class (DESIGN §2/§3). Every oracle is the Boolean twin of a statement in
+`Properties/Cxx.lean`, written with the Spec layer only.
 -/
 import TzVerif.Driver.Codec
+import TzVerif.Spec.Calendar
+import TzVerif.Spec.Lookup
+import TzVerif.Spec.Text
 
 namespace TzVerif.Spec
-open TzVerif.Model TzVerif.Driver
+open TzVerif.Model TzVerif.Driver TzVerif.Gen
 
 abbrev Verdicts := List (String × Bool)
 
-def gmtimeOracles (_t _ns : Int) (_rhs : List String) : Verdicts := []
-def utcnewOracles (_y _mo _d _h _mi _s _ns : Int) (_rhs : List String) : Verdicts := []
-def utccmpOracles (_a _b : List Int) (_rhs : List String) : Verdicts := []
-def utctnOracles (_n : Int) (_rhs : List String) : Verdicts := []
-def fmtOracles (_y _mo _d _h _mi _s _ns _off : Int) (_rhs : String) : Verdicts := []
-def lttnewOracles (_off : Int) (_name : Option (List Nat)) (_rhs : String) : Verdicts := []
-def dtOracles (_rhs : List String) : Verdicts := []
-def dtnewOracles (_y _mo _d _h _mi _s _ns : Int) (_l : LocalTimeType) (_rhs : List String) : Verdicts := []
-def dtfromlocalOracles (_u _ns : Int) (_l : LocalTimeType) (_rhs : List String) : Verdicts := []
-def dttnOracles (_n : Int) (_l : LocalTimeType) (_rhs : List String) : Verdicts := []
-def rulenewOracles (_std _dst : LocalTimeType) (_ds : RuleDay) (_st : Int) (_de : RuleDay) (_et : Int) (_rhs : String) : Verdicts := []
-def zonenewOracles (_z : TimeZone) (_rhs : List String) : Verdicts := []
-def lookupOracles (_z : TimeZone) (_u : Int) (_rhs : List String) : Verdicts := []
-def dtfromOracles (_z : TimeZone) (_u _ns : Int) (_rhs : List String) : Verdicts := []
-def findOracles (_z : TimeZone) (_y _mo _d _h _mi _s _ns : Int) (_rhs : List String) : Verdicts := []
-def findnOracles (_z : TimeZone) (_n : Nat) (_f _stale : Int × Int × Int × Int × Int × Int × Int) (_rhs : List String) : Verdicts := []
+def ints? (toks : List String) : Option (List Int) := toks.mapM String.toInt?
+
+def isErr (rhs : List String) : Bool := match rhs with
+  | t :: _ => t.startsWith "Err"
+  | [] => false
+
+def validDateB (y m d : Int) : Bool := decide (ValidDate y m d)
+def validTimeB (h mi s : Int) : Bool := decide (ValidTime h mi s)
+
+/-! ### C01 -/
+
+def gmtimeOracles (t ns : Int) (rhs : List String) : Verdicts :=
+  let inRange := decide (MIN_UNIX_TIME ≤ t ∧ t ≤ MAX_UNIX_TIME)
+  if isErr rhs then
+    [("C01.refused_only_outside_range", !inRange), ("C01.refusal_is_out_of_range", rhs == ["Err:OutOfRange"])]
+  else match ints? rhs with
+    | some [y, mo, d, h, mi, s, ns', wd, yd] =>
+      [("C01.accepted_only_in_range", inRange),
+       ("C01.day_exists", validDateB y mo d),
+       ("C01.time_in_range", decide (0 ≤ h ∧ h ≤ 23 ∧ 0 ≤ mi ∧ mi ≤ 59 ∧ 0 ≤ s ∧ s ≤ 59)),
+       ("C01.fields_denote_instant", seconds y mo d h mi s == t),
+       ("C01.nanoseconds_copied", ns' == ns),
+       ("C01.year_fits_i32", decide (i32Min ≤ y ∧ y ≤ i32Max)),
+       ("C01.week_day", wd == weekdayOfDay (t / 86400)),
+       ("C01.year_day", yd == t / 86400 - daysBeforeYear y && decide (0 ≤ yd ∧ yd < yearLen y))]
+    | _ => [("C01.answer_shape", false)]
+
+/-! ### C02 / C16 -/
+
+/-- what `UtcDateTime::new` must answer (same clause list as `C02.expected`, tied by `rfl` there) -/
+def utcNewExpected (y mo d h mi s ns : Int) : Option String :=
+  if y = i32Max ∧ mo = 12 ∧ d = 31 ∧ h = 23 ∧ mi = 59 ∧ s = 60 then some "Err:OutOfRange"
+  else if ¬ (1 ≤ mo ∧ mo ≤ 12) then some "Err:DateTime.InvalidMonth"
+  else if ¬ (1 ≤ d ∧ d ≤ 31) then some "Err:DateTime.InvalidMonthDay"
+  else if h > 23 then some "Err:DateTime.InvalidHour"
+  else if mi > 59 then some "Err:DateTime.InvalidMinute"
+  else if s > 60 then some "Err:DateTime.InvalidSecond"
+  else if ns ≥ 1000000000 then some "Err:DateTime.InvalidNanoseconds"
+  else if d > monthLen y mo then some "Err:DateTime.InvalidMonthDay"
+  else none
+
+/-- field validation alone (no excluded instant): for the zoned constructor and the search -/
+def fieldsError (y mo d h mi s ns : Int) : Option String :=
+  if ¬ (1 ≤ mo ∧ mo ≤ 12) then some "Err:DateTime.InvalidMonth"
+  else if ¬ (1 ≤ d ∧ d ≤ 31) then some "Err:DateTime.InvalidMonthDay"
+  else if h > 23 then some "Err:DateTime.InvalidHour"
+  else if mi > 59 then some "Err:DateTime.InvalidMinute"
+  else if s > 60 then some "Err:DateTime.InvalidSecond"
+  else if ns ≥ 1000000000 then some "Err:DateTime.InvalidNanoseconds"
+  else if d > monthLen y mo then some "Err:DateTime.InvalidMonthDay"
+  else none
+
+def utcnewOracles (y mo d h mi s ns : Int) (rhs : List String) : Verdicts :=
+  match utcNewExpected y mo d h mi s ns with
+  | some e => [("C02.refused_with_specific_error", rhs == [e])]
+  | none =>
+    match ints? rhs with
+    | some [ut, wd, yd, tn] =>
+      let dn := dayNumber y mo d
+      [("C02.accepts_real_dates", true),
+       ("C02.unix_time_is_second_count", ut == seconds y mo d h mi s),
+       ("C02.week_day", wd == weekdayOfDay dn),
+       ("C02.year_day", yd == dn - daysBeforeYear y),
+       ("C16.total_is_s_times_1e9_plus_ns", tn == ut * 1000000000 + ns)]
+    | _ => [("C02.accepts_real_dates", false)]
+
+def cmp3 (a b : List Int) : Int :=
+  match a, b with
+  | x :: xs, y :: ys => if x < y then -1 else if x > y then 1 else cmp3 xs ys
+  | _, _ => 0
+
+def utccmpOracles (a b : List Int) (rhs : List String) : Verdicts :=
+  match ints? rhs, a, b with
+  | some [c, ua, ub], [y, mo, d, h, mi, s, _], [y', mo', d', h', mi', s', _] =>
+    let c6 := cmp3 [y, mo, d, h, mi, s] [y', mo', d', h', mi', s']
+    let both59 := decide (s ≤ 59 ∧ s' ≤ 59)
+    [("C02.ord_is_lexicographic", c == cmp3 a b),
+     ("C02.unix_times", ua == seconds y mo d h mi s && ub == seconds y' mo' d' h' mi' s'),
+     ("C02.later_date_larger_unix_time", !both59 || ((c6 == -1) == decide (ua < ub) && (c6 == 1) == decide (ua > ub)))]
+  | _, _, _ => [("C02.answer_shape", false)]
+
+def utctnOracles (n : Int) (rhs : List String) : Verdicts :=
+  let sec := n / 1000000000
+  let inRange := decide (MIN_UNIX_TIME ≤ sec ∧ sec ≤ MAX_UNIX_TIME)
+  if isErr rhs then [("C16.refused_only_outside_range", !inRange), ("C16.refusal_is_out_of_range", rhs == ["Err:OutOfRange"])]
+  else match ints? rhs with
+    | some [y, mo, d, h, mi, s, ns, _, _, ut] =>
+      [("C16.accepted_only_in_range", inRange),
+       ("C16.seconds_are_floor", ut == sec && seconds y mo d h mi s == sec),
+       ("C16.nanoseconds_in_range", ns == n % 1000000000 && decide (0 ≤ ns ∧ ns ≤ 999999999)),
+       ("C16.recombines", ut * 1000000000 + ns == n)]
+    | _ => [("C16.answer_shape", false)]
+
+/-! ### C18 -/
+
+def fmtOracles (y mo d h mi s ns off : Int) (rhs : String) : Verdicts :=
+  if rhs.startsWith "Err" then []   -- construction refused: nothing rendered (C14 decides whether rightly)
+  else
+    [("C18.reads_back", readBack rhs.toList ==
+        some { year := y, month := mo, day := d, hour := h, minute := mi, second := s, nanoseconds := ns, offset := off })]
+
+/-! ### C13 -/
+
+def nameOk (n : List Nat) : Bool :=
+  decide (3 ≤ n.length ∧ n.length ≤ 7) &&
+  n.all (fun b => (48 ≤ b && b ≤ 57) || (65 ≤ b && b ≤ 90) || (97 ≤ b && b ≤ 122) || b == 43 || b == 45)
+
+def lttnewOracles (off : Int) (name : Option (List Nat)) (rhs : String) : Verdicts :=
+  let expected : String :=
+    if off = i32Min then "Err:LocalTimeType.InvalidUtcOffset"
+    else match name with
+      | none => "ok"
+      | some n =>
+        if ¬ (3 ≤ n.length ∧ n.length ≤ 7) then "Err:LocalTimeType.InvalidTimeZoneDesignationLength"
+        else if !nameOk n then "Err:LocalTimeType.InvalidTimeZoneDesignationChar" else "ok"
+  [("C13.local_time_type", rhs == expected)]
+
+/-- Boolean twin of `Spec.WFZone`, and the expected error (first violated clause in checking order) -/
+def leapStepsOKB : List LeapSecond → Bool
+  | [] => true
+  | [_] => true
+  | a :: b :: rest =>
+    decide (b.unixLeapTime - a.unixLeapTime ≥ 2419199) &&
+    (b.correction - a.correction == 1 || b.correction - a.correction == -1) && leapStepsOKB (b :: rest)
+
+def leapWFB (ls : List LeapSecond) : Bool :=
+  (match ls with
+   | [] => true
+   | l :: _ => decide (l.unixLeapTime ≥ 0) && (l.correction == 1 || l.correction == -1)) && leapStepsOKB ls
+
+def strictlyIncreasingB : List Transition → Bool
+  | [] => true
+  | [_] => true
+  | a :: b :: rest => decide (a.unixLeapTime < b.unixLeapTime) && strictlyIncreasingB (b :: rest)
+
+/-- first structural defect in the order the property lists its errors for a transition table -/
+def transitionsError (n : Nat) : List Transition → Option String
+  | [] => none
+  | t :: rest =>
+    if t.localTimeTypeIndex ≥ n then some "Err:TimeZone.InvalidLocalTimeTypeIndex"
+    else match rest with
+      | [] => none
+      | t' :: _ => if t.unixLeapTime ≥ t'.unixLeapTime then some "Err:TimeZone.InvalidTransition" else transitionsError n rest
+
+def zoneExpected (z : TimeZone) : String :=
+  if z.localTimeTypes.isEmpty then "Err:TimeZone.NoLocalTimeType"
+  else match transitionsError z.localTimeTypes.length z.transitions with
+    | some e => e
+    | none =>
+      if !leapWFB z.leapSeconds then "Err:TimeZone.InvalidLeapSecond"
+      else match z.extraRule, z.transitions.getLast? with
+        | some r, some last =>
+          let T := last.unixLeapTime
+          let ut := toUtc z.leapSeconds T
+          if T = i64Min ∨ ut < i64Min ∨ ut > i64Max then "Err:OutOfRange"
+          else match ruleExpect r ut with
+            | .type t => if t == z.localTimeTypes.getD last.localTimeTypeIndex default then "ok" else "Err:TimeZone.InconsistentExtraRule"
+            | .outOfRange => "Err:OutOfRange"
+            | .noAvail => "?"
+        | _, _ => "ok"
+
+def ruleOf (z : TimeZone) : Option AlternateTime :=
+  match z.extraRule with
+  | some (.alternate a) => some a
+  | _ => none
+
+/-- tag for inputs whose rule lies in a known-finding class -/
+def kfTag (z : TimeZone) : String :=
+  match ruleOf z with
+  | some a => if classReverseTie a then "[KF:rule_reverse_order_with_tie]" else if classOverlap a then "[KF:rule_periods_overlap]" else ""
+  | none => ""
+
+def zonenewOracles (z : TimeZone) (rhs : List String) : Verdicts :=
+  match rhs with
+  | [a, b] =>
+    let e := zoneExpected z
+    -- when the rule clause is decided by an instant outside the supported range the evaluation error wins
+    [("C13.owned_equals_borrowed", a == b),
+     ("C13.accepts_exactly_well_formed" ++ kfTag z, (a == "ok") == (e == "ok") || e == "?"),
+     ("C13.specific_error" ++ kfTag z, a == e || e == "?")]
+  | _ => [("C13.answer_shape", false)]
+
+/-! ### C14 -/
+
+def dtInv (d : DateTime) : Bool :=
+  validDateB d.year d.month d.monthDay && validTimeB d.hour d.minute d.second &&
+  seconds d.year d.month d.monthDay d.hour d.minute d.second == d.unixTime + d.localTimeType.utOffset
+
+def dt? (rhs : List String) : Option DateTime :=
+  match runP dt rhs with
+  | .ok d => some d
+  | .error _ => none
+
+def dtOracles (rhs : List String) : Verdicts :=
+  if isErr rhs then [] else
+  match dt? rhs with
+  | some d => [("C14.fields_match_instant", dtInv d)]
+  | none => [("C14.answer_shape", false)]
+
+def dtnewOracles (y mo d h mi s ns : Int) (l : LocalTimeType) (rhs : List String) : Verdicts :=
+  match fieldsError y mo d h mi s ns with
+  | some e => [("C14.refused_when_not_a_real_date", rhs == [e])]
+  | none =>
+    let ut := seconds y mo d h mi s - l.utOffset
+    if MIN_UNIX_TIME ≤ ut ∧ ut ≤ MAX_UNIX_TIME then
+      match dt? rhs with
+      | some x => [("C14.new_keeps_fields", x.year == y && x.month == mo && x.monthDay == d && x.hour == h && x.minute == mi &&
+                      x.second == s && x.nanoseconds == ns && x.localTimeType == l && x.unixTime == ut)]
+      | none => [("C14.accepted_when_in_range", false)]
+    else [("C14.refused_when_instant_out_of_range", rhs == ["Err:OutOfRange"])]
+
+def dtfromlocalOracles (u ns : Int) (l : LocalTimeType) (rhs : List String) : Verdicts :=
+  let t := u + l.utOffset
+  if MIN_UNIX_TIME ≤ t ∧ t ≤ MAX_UNIX_TIME then
+    match dt? rhs with
+    | some x => [("C14.from_timestamp_keeps_instant", x.unixTime == u && x.nanoseconds == ns && x.localTimeType == l && decide (x.second ≤ 59))]
+    | none => [("C14.accepted_when_in_range", false)]
+  else [("C14.refused_when_instant_out_of_range", rhs == ["Err:OutOfRange"])]
+
+def dttnOracles (n : Int) (l : LocalTimeType) (rhs : List String) : Verdicts :=
+  let sec := n / 1000000000
+  let t := sec + l.utOffset
+  if i64Min ≤ sec ∧ sec ≤ i64Max ∧ MIN_UNIX_TIME ≤ t ∧ t ≤ MAX_UNIX_TIME then
+    match rhs.reverse with
+    | tn :: "TN" :: rest =>
+      match dt? rest.reverse, tn.toInt? with
+      | some x, some tnv =>
+        [("C16.zoned_from_total", x.unixTime == sec && x.nanoseconds == n % 1000000000 && x.localTimeType == l),
+         ("C16.total_roundtrip", tnv == n)]
+      | _, _ => [("C16.answer_shape", false)]
+    | _ => [("C16.accepted_when_in_range", false)]
+  else [("C16.refused_when_out_of_range", rhs == ["Err:OutOfRange"])]
+
+/-! ### C11 -/
+
+def rulenewOracles (std dst : LocalTimeType) (ds : RuleDay) (st : Int) (de : RuleDay) (et : Int) (rhs : String) : Verdicts :=
+  let a : AlternateTime := { std, dst, dstStart := ds, dstStartTime := st, dstEnd := de, dstEndTime := et }
+  let offOk (o : Int) : Bool := decide (-25 * 3600 < o ∧ o < 26 * 3600)
+  let timeOk (t : Int) : Bool := decide (-604800 < t ∧ t < 604800)
+  let expected : String :=
+    if !offOk std.utOffset then "Err:TransitionRule.InvalidStdUtcOffset"
+    else if !offOk dst.utOffset then "Err:TransitionRule.InvalidDstUtcOffset"
+    else if !(timeOk st && timeOk et) then "Err:TransitionRule.InvalidDstStartEndTime"
+    else if !consistentB a then "Err:TransitionRule.InconsistentRule"
+    else "ok"
+  [("C11.accepts_exactly_consistent_rules", (rhs == "ok") == (expected == "ok")),
+   ("C11.specific_error", rhs == expected)]
+
+/-! ### C03 / C04 / C12 -/
+
+def lttOf? (rhs : List String) : Option LocalTimeType :=
+  match runP ltt rhs with
+  | .ok l => some l
+  | .error _ => none
+
+def lookupOracles (z : TimeZone) (u : Int) (rhs : List String) : Verdicts :=
+  let e := zoneExpect z u
+  let by_ := decidedBy z u
+  let nearEnds := decide (u < i64Min + 4294967296 ∨ u > i64Max - 4294967296)
+  let ok : Bool :=
+    match e with
+    | .type t => (lttOf? rhs == some t) || (nearEnds && rhs == ["Err:OutOfRange"])
+    | .noAvail => rhs == ["Err:NoAvailableLocalTimeType"] || (nearEnds && rhs == ["Err:OutOfRange"])
+    | .outOfRange => rhs == ["Err:OutOfRange"]
+  let ruleDecides := (by_ == 0 || by_ == 2) && (ruleOf z).isSome
+  let tag := kfTag z
+  (if by_ == 1 then [("C03.latest_transition_at_or_before", ok)] else []) ++
+  (if by_ == 2 && !ruleDecides then [("C03.after_last_transition", ok)] else []) ++
+  (if by_ == 0 && !ruleDecides then [("C03.no_table", ok)] else []) ++
+  (if by_ != 0 && !z.leapSeconds.isEmpty then [("C12.transition_takes_effect_at_its_utc_instant", ok || ruleDecides)] else []) ++
+  (if ruleDecides then
+     match ruleOf z with
+     | some a => if interleavesB a || tag != "" then [("C04.dst_exactly_inside_periods" ++ tag, ok)] else []
+     | none => []
+   else [])
+
+def dtfromOracles (z : TimeZone) (u ns : Int) (rhs : List String) : Verdicts :=
+  if isErr rhs then [] else
+  match dt? rhs with
+  | some d =>
+    let tag := kfTag z
+    [("C03.local_date_time_is_instant_plus_offset", d.unixTime == u && d.nanoseconds == ns && dtInv d && decide (d.second ≤ 59)),
+     ("C03.local_date_time_type" ++ tag, zoneExpect z u == .type d.localTimeType)]
+  | none => [("C03.answer_shape", false)]
+
+/-! ### C05 / C06 / C14 / C17 -/
+
+/-- parse `[ n … ] U x E x X x` -/
+def findAnswer? (rhs : List String) : Option (List Found × List String) :=
+  match (foundList.run rhs) with
+  | .ok (l, rest) => some (l, rest)
+  | .error _ => none
+
+def foundInstant : Found → Int
+  | .normal d => d.unixTime
+  | .skipped b _ => b.unixTime
+
+def nondecreasing : List Int → Bool
+  | a :: b :: rest => decide (a ≤ b) && nondecreasing (b :: rest)
+  | _ => true
+
+def sameMembers {α} [BEq α] (a b : List α) : Bool := a.all (b.contains ·) && b.all (a.contains ·)
+
+def noDups {α} [BEq α] : List α → Bool
+  | [] => true
+  | x :: xs => !xs.contains x && noDups xs
+
+def showOpt (o : Option DateTime) : String := showOptDt o
+
+def findOracles (z : TimeZone) (y mo d h mi s ns : Int) (rhs : List String) : Verdicts :=
+  let tag := kfTag z
+  match fieldsError y mo d h mi s ns with
+  | some e => [("C05.search_refuses_invalid_fields", rhs == [e])]
+  | none =>
+    if isErr rhs then []   -- a candidate instant outside the supported range (separate lemma `find_err_iff`)
+    else match findAnswer? rhs with
+    | none => [("C05.answer_shape", false)]
+    | some (l, rest) =>
+      let c := seconds y mo d h mi s
+      let normals := l.filterMap (fun f => match f with | .normal x => some x | _ => none)
+      let skipped := l.filterMap (fun f => match f with | .skipped b a => some (b, a) | _ => none)
+      let implSet := normals.map (fun x => (x.unixTime, x.localTimeType))
+      let spec := validSet z c
+      let fieldsOk := normals.all (fun x => x.year == y && x.month == mo && x.monthDay == d && x.hour == h &&
+        x.minute == mi && x.second == s && x.nanoseconds == ns)
+      let gaps := gapSet z c
+      let implGaps := skipped.map (fun (b, a) => (b.unixTime, b.localTimeType, a.localTimeType))
+      let gapsShape := skipped.all (fun (b, a) => b.unixTime == a.unixTime && b.nanoseconds == ns && a.nanoseconds == ns && dtInv b && dtInv a)
+      let accessors : String := s!"U {showOpt (listUnique l)} E {showOpt (listEarliest l)} X {showOpt (listLatest l)}"
+      [("C05.valid_results_are_exactly_the_instants" ++ tag, sameMembers implSet spec),
+       ("C05.no_duplicates" ++ tag, noDups implSet),
+       ("C05.results_carry_searched_fields", fieldsOk),
+       ("C14.search_entries", l.all (fun f => match f with | .normal x => dtInv x | .skipped b a => dtInv b && dtInv a)),
+       ("C06.gaps_reported_exactly" ++ tag, sameMembers implGaps gaps && noDups implGaps && gapsShape),
+       ("C06.ascending_order" ++ tag, nondecreasing (l.map foundInstant)),
+       ("C06.unique_earliest_latest", String.intercalate " " rest == accessors),
+       ("C06.unique_iff_single_valid_result" ++ tag,
+          (listUnique l).isSome == (spec.length == 1 && gaps.isEmpty))]
+
+/-- `findn … => <count> <exh> <datalen> B <n entries> U … E … X … ## F <find answer> ## S <n entries after stale search>` -/
+def splitOn3 (toks : List String) : List (List String) :=
+  let rec go : List String → List String → List (List String) → List (List String)
+    | [], cur, acc => (cur.reverse :: acc).reverse
+    | t :: ts, cur, acc => if t == "##" then go ts [] (cur.reverse :: acc) else go ts (t :: cur) acc
+  go toks [] []
+
+def bufEntries (n : Nat) : P (List (Option Found)) :=
+  repeatP n (do
+    match (← peek?) with
+    | some "-" => let _ ← tok; pure none
+    | _ => let f ← found; pure (some f))
+
+def findnOracles (_z : TimeZone) (n : Nat) (_f _stale : Int × Int × Int × Int × Int × Int × Int) (rhs : List String) : Verdicts :=
+  match splitOn3 rhs with
+  | [main, "F" :: fAns, "S" :: sBuf] =>
+    if isErr main then [("C17.same_error", main == fAns)]
+    else if isErr fAns then [("C17.same_error", false)]
+    else
+      match findAnswer? fAns, runP (bufEntries n) sBuf, main with
+      | some (rs, _), .ok stale, cnt :: exh :: dl :: "B" :: restMain =>
+        match (bufEntries n).run restMain with
+        | .ok (buf, acc) =>
+          let k := rs.length
+          let m := min n k
+          let expectedBuf := (rs.take m).map some ++ stale.drop m
+          let accessors : String :=
+            if n ≥ k then s!"U {showOpt (listUnique rs)} E {showOpt (listEarliest rs)} X {showOpt (listLatest rs)}" else ""
+          [("C17.count_is_total", cnt == toString k),
+           ("C17.exhaustive_iff_fits", (exh == "1") == decide (n ≥ k)),
+           ("C17.data_is_prefix", dl == toString m),
+           ("C17.buffer_prefix_then_untouched", buf == expectedBuf),
+           ("C17.accessors_agree_when_exhaustive", n < k || String.intercalate " " acc == accessors)]
+        | .error _ => [("C17.answer_shape", false)]
+      | _, _, _ => [("C17.answer_shape", false)]
+  | _ => []   -- line without the companion answers (older corpus): nothing to compare
+
+/-! ### C08 / C09 / C20 -/
+
 def tzifOracles (_b : List Nat) (_rhs : List String) : Verdicts := []
-def tzifgenOracles (_v : Nat) (_z : TimeZone) (_b : List Nat) (_rhs : List String) : Verdicts := []
-def tzifbadOracles (_cls : String) (_b : List Nat) (_rhs : String) : Verdicts := []
+
+def tzifgenOracles (_v : Nat) (z : TimeZone) (_b : List Nat) (rhs : List String) : Verdicts :=
+  [("C08.decodes_to_the_encoded_zone", String.intercalate " " rhs == showZone z)]
+
+def tzifbadOracles (cls : String) (_b : List Nat) (rhs : String) : Verdicts :=
+  [("C08.rejects_" ++ cls, rhs.startsWith "Err")]
+
 def tzfooterOracles (_v : Nat) (_b : List Nat) (_rhs : List String) : Verdicts := []
+
 def resolveOracles (_dirs : List (List Nat)) (_files : List (List Nat × List Nat)) (_tz : List Nat) (_rhs : List String) : Verdicts := []
 
 end TzVerif.Spec
